@@ -10,7 +10,7 @@ k=[kk for kk in REGISTRY if sys.argv[1] in kk][0]
 r = verify_function(REGISTRY[k], REGISTRY)
 for o in r.obligations:
     if sys.argv[2] in o.name:
-        for cfg in [{}, {"smt.mbqi": False}, {"smt.mbqi": False, "smt.ematching": True, "smt.qi.eager_threshold": 100}, {"smt.auto_config": False, "smt.mbqi": False}]:
+        for cfg in [{}, {"smt.mbqi": False}, {"smt.auto_config": False, "smt.mbqi": False}]:
             s=z3.Solver(); s.set("timeout", 20000)
             for kk,v in cfg.items(): s.set(kk, v)
             for a in INTERN.string_axioms(): s.add(a)
